@@ -1100,6 +1100,63 @@ def check_nested_choice_by_type(rep, rng, n):
                     break
 
 
+def check_undeclared_collection_copies(rep):
+    """a SEQUENCE OF / SET OF created without a declared component type takes whatever it is given (the schemaless decoders build
+    such objects): its copy by value - clone / subtype with cloneValueFlag, one and two levels - has the same length, content,
+    value status and encoding as the list of what was put in, whether the elements are scalars, collections or records, and is
+    independent of the original"""
+    from pyasn1.type import univ as U, namedtype as NT
+    from pyasn1.codec.der import encoder as der_enc
+    ints = U.SequenceOf(componentType=U.Integer())
+    rec = U.Sequence(componentType=NT.NamedTypes(NT.NamedType('a', U.Integer()), NT.OptionalNamedType('b', U.OctetString())))
+
+    def mk_ints(*xs):
+        o = ints.clone()
+        o.extend(xs)
+        return o
+
+    def mk_rec(a, b=None):
+        o = rec.clone()
+        o['a'] = a
+        if b is not None:
+            o['b'] = b
+        return o
+    fills = {
+        'scalars': lambda: [U.Integer(1), U.Integer(2)],
+        'collections': lambda: [mk_ints(1, 2), mk_ints(7, 8), mk_ints()],
+        'records': lambda: [mk_rec(1), mk_rec(2, b'x')],
+        'mixed': lambda: [mk_ints(4), mk_rec(9, b'yz'), U.Integer(5)],
+        'nested-undeclared': lambda: [(lambda o: (o.append(mk_ints(4)), o)[1])(U.SequenceOf()), mk_ints(1)],
+    }
+    copies = {'clone': lambda o: o.clone(cloneValueFlag=True), 'subtype': lambda o: o.subtype(cloneValueFlag=True),
+              'clone-of-clone': lambda o: o.clone(cloneValueFlag=True).clone(cloneValueFlag=True)}
+    for cls in (U.SequenceOf, U.SetOf):
+        for fname, fill in sorted(fills.items()):
+            for cname, cp in sorted(copies.items()):
+                rep.evaluations += 1
+                rep.count('undeclared-collection-copies')
+                case = {'kind': 'undeclared-collection-copy', 'container': cls.__name__, 'elements': fname, 'copy': cname}
+                try:
+                    src = cls()
+                    for el in fill():
+                        src.append(el)
+                    want = (len(src), src.isValue, bytes(der_enc.encode(src)).hex())
+                    dup = cp(src)
+                    got = (len(dup), dup.isValue, bytes(der_enc.encode(dup)).hex())
+                    same = (dup == src)
+                    # independence: emptying the copy leaves the original alone
+                    dup.clear()
+                    after = (len(src), src.isValue, bytes(der_enc.encode(src)).hex())
+                except Exception as e:  # noqa
+                    rep.fail('undeclared-copy-' + type(e).__name__, '%s() holding %s, %s: %r' % (cls.__name__, fname, cname, e), case)
+                    continue
+                if got != want or not same:
+                    rep.fail('copy-by-value-differs', '%s() holding %s: the %s reads (len, isValue, DER) = %r, == original: %s; the original %r' % (
+                        cls.__name__, fname, cname, got, same, want), case)
+                elif after != want:
+                    rep.fail('copy-shares-state', '%s() holding %s: clearing the %s changed the original to %r' % (cls.__name__, fname, cname, after), case)
+
+
 def check_sort_variants(rep, rng, n):
     """sort(key=..., reverse=...) behaves as the list method of the same name does (a stable sort, also when reversed):
     SEQUENCE OF / SET OF of INTEGER against a Python list of the same integers, keys with many ties"""
@@ -1157,6 +1214,7 @@ def run(rep, tier, seed):
     check_sort_variants(rep, common.rng_for(seed, 'C19', 'sort'), 400 if quick else 20000)
     check_reads_constrained(rep)
     check_reassign_plain(rep)
+    check_undeclared_collection_copies(rep)
     check_nested_choice_by_type(rep, common.rng_for(seed, 'C19', 'choice-by-type'), 40 if quick else 2000)
     rep.case('nested collections', nontrivial=True)
     check_nested_collections(rep, common.rng_for(seed, 'C19', 'nested'), 25 if quick else 1500)
